@@ -344,7 +344,7 @@ def run(tier, seed, only=None):
 
     # ------------------------------------------------------------ generated graphs, S-a
     scratch = make_scratch("c07")
-    nprog = int(os.environ.get("BVSIM_C07_NPROG", 600 if quick else 6000))
+    nprog = int(os.environ.get("BVSIM_C07_NPROG", 1000 if quick else 6000))
     max_orders = int(os.environ.get("BVSIM_C07_ORDERS", 6 if quick else 48))
     log(f"[C07] generated declaration graphs: {nprog} programs x <= {max_orders} orders")
     progs = []
